@@ -23,6 +23,7 @@ EXTRA = {  # further registered checks worth running for a change (it may break 
     'C17-1': ['C04'], 'C17-2': ['C04'], 'C17-3': ['C06', 'C02'],
     'C02-6': ['C04'], 'C04-6': ['C16'], 'C05-4': ['C01'], 'C05-6': ['C06'], 'C16-6': ['C06'],
     'C01-5': ['C04'], 'C01-6': ['C08'], 'C03-5': ['C06', 'C02'], 'C06-4': ['C02'], 'C06-5': ['C02'], 'C06-6': ['C02'], 'C08-4': ['C07'], 'C09-4': ['C08'],
+    'C07-4': ['C08'], 'C10-4': ['C11'], 'C11-4': ['C14'],
     'C10-2': ['C11'], 'C11-1': ['C10'], 'C11-2': ['C10'], 'C11-3': ['C14'], 'C14-1': ['C10'],
 }
 REGISTERED = {c['property_id'] for c in json.load(open('/verif/MANIFEST.json'))['checks']}
@@ -63,10 +64,17 @@ def run_checks(sid, repo, verif, env):
                 break
     finally:
         sh('git -C %s checkout -q -- . && git -C %s clean -fdq' % (repo, repo))
+    if env.get('VERIF_ONLY'):
+        # partial re-run (only the named obligations, e.g. ones added later): merged into the
+        # existing matrix under its own key, the full-check entries stay as they were
+        old = meta.get('matrix', {})
+        for p, v in res.items():
+            old['%s (only %s)' % (p, env['VERIF_ONLY'])] = v
+        res = old
     meta['matrix'] = res
     meta['caught'] = any(v['violations'] for v in res.values())
     meta['caught_by'] = [p for p, v in res.items() if v['violations']]
-    meta['refused_by'] = [p for p, v in res.items() if v['exit'] == 2]
+    meta['refused_by'] = [p for p, v in res.items() if v['exit'] == 2 and not v['violations']]
     meta['what_i_ran'] = ('git apply patch.diff in %s; python3 run.py quick <property> for %s; git checkout -- .'
                           % ('/repo' if repo == '/repo' else 'a scratch worktree of /repo (same checks, VERIF_REPO pointing at it)', ', '.join(props)))
     json.dump(meta, open(os.path.join(d, 'meta.json'), 'w'), indent=1)
